@@ -91,6 +91,7 @@ KindOf(b) == IF b = 5 THEN "socks" ELSE "http"
 \* Accepted: conn, sub           (sub-listener sub's Accept returned the connection)
 \* HRead: conn, want, data       (a handler read from the accepted connection with a buffer of want bytes)
 \* SrvClosed: conn               (the server side closed the connection)
+\* MuxConnGone: conn             (the base listener was already closed: the client was never accepted)
 \* Quiesce                       (every goroutine of the mux is blocked)
 MayWait(m, kind) == \E s \in DOMAIN m.subs : m.subs[s].kind = kind /\ ~m.subs[s].closed /\ ~m.subs[s].looping
 
@@ -120,7 +121,7 @@ MuxStep(m, e, ln) ==
     [] e.ev = "HEof" ->    \* the handler read up to the end of the client's stream
          LET x == Get(m.mx, e.conn, NoMux)
          IN [m EXCEPT !.viol = V(@, e, ln, "Intact", x.known /\ x.hoff # Len(x.stream))]
-    [] e.ev = "SrvClosed" ->
+    [] e.ev \in {"SrvClosed", "MuxConnGone"} ->   \* MuxConnGone: the shared port had stopped listening, never accepted
          LET x == Get(m.mx, e.conn, NoMux) IN
          IF x.known THEN [m EXCEPT !.mx = Put(@, e.conn, [x EXCEPT !.closed = TRUE])] ELSE m
     [] e.ev = "Quiesce" ->
